@@ -1,7 +1,8 @@
 (* C22 — CRDT merges are associative, commutative and idempotent; LWW reads
    expose the greatest clock; add wins at equal clocks.
    This file contains only theorem statements closed by [exact]. *)
-From HW Require Import lib.Base lib.SMap model.Crdt proofs.CrdtProofs.
+From Coq Require Import Permutation.
+From HW Require Import lib.Base lib.SMap model.Crdt proofs.CrdtProofs proofs.CrdtConverge.
 
 (* SLaws S := join preserves the representation invariant and is associative,
    commutative and idempotent on every well-formed value (see CrdtProofs.v). *)
@@ -61,6 +62,58 @@ Theorem C22_builders_are_generic :
   (forall ops, lwwmap_build ops = map_build max_sl (map mop_write ops)) /\
   (forall ops, lwwset_build ops = map_build unit_sl (map sop_write ops)).
 Proof. exact (conj lwwmap_build_generic lwwset_build_generic). Qed.
+
+(* Convergence, for every lattice satisfying the laws (hence, by
+   C22_semilattice_laws, for every CRDT of the crate and every nesting of them):
+   a replica that merges a collection of states ends in a state that depends
+   only on the SET of states delivered — any order, any duplication, no bound
+   on the number of deliveries. [merge_all S a l] = fold of Semilattice::merge. *)
+Theorem C22_merge_order_and_duplication_irrelevant :
+  forall S, SLaws S -> forall (l1 l2 : list (car S)) (a : car S),
+  wf S a -> Forall (wf S) l1 -> Forall (wf S) l2 ->
+  (forall x, In x l1 <-> In x l2) -> merge_all S a l1 = merge_all S a l2.
+Proof. exact merge_all_converges. Qed.
+
+Theorem C22_merge_permutation_irrelevant :
+  forall S, SLaws S -> forall (l1 l2 : list (car S)) (a : car S),
+  wf S a -> Forall (wf S) l1 -> Permutation l1 l2 -> merge_all S a l1 = merge_all S a l2.
+Proof. exact merge_all_permutation. Qed.
+
+(* two replicas with different starting states that exchange those and receive
+   the same set of further states agree *)
+Theorem C22_two_replicas_converge :
+  forall S, SLaws S -> forall (a b : car S) (l1 l2 : list (car S)),
+  wf S a -> wf S b -> Forall (wf S) l1 -> Forall (wf S) l2 ->
+  (forall x, In x l1 <-> In x l2) ->
+  merge_all S a (b :: l1) = merge_all S b (a :: l2).
+Proof. exact merge_all_two_replicas. Qed.
+
+(* the merged state is the least upper bound of what was delivered:
+   [sle S x y] := merging x into y changes nothing *)
+Theorem C22_merge_is_least_upper_bound :
+  forall S, SLaws S -> forall (l : list (car S)) (a : car S),
+  wf S a -> Forall (wf S) l ->
+  sle S a (merge_all S a l) /\
+  (forall x, In x l -> sle S x (merge_all S a l)) /\
+  (forall z, wf S z -> sle S a z -> Forall (fun x => sle S x z) l -> sle S (merge_all S a l) z).
+Proof.
+  intros S L l a Ha Hl.
+  exact (conj (merge_all_ge_start S L l a Ha Hl)
+        (conj (fun x Hx => merge_all_ge_elem S L l a x Ha Hl Hx)
+              (fun z Hz Haz Hlz => merge_all_least S L l a z Ha Hz Hl Haz Hlz))).
+Qed.
+
+(* non-vacuity of the convergence theorems: three LWWSet replicas, delivered in
+   different orders and with a duplicate *)
+Example C22_example_convergence :
+  let r1 := lwwset_build [SIns 7 3; SRem 8 1] in
+  let r2 := lwwset_build [SRem 7 3; SIns 9 2] in
+  let r3 := lwwset_build [SIns 8 1; SRem 9 5] in
+  merge_all lwwset_sl r1 [r2; r3] = merge_all lwwset_sl r1 [r3; r2; r3; r2] /\
+  merge_all lwwset_sl r1 [r2; r3] = merge_all lwwset_sl r2 [r1; r3] /\
+  lwwset_contains 7 (merge_all lwwset_sl r1 [r2; r3]) = true /\
+  lwwset_contains 9 (merge_all lwwset_sl r1 [r2; r3]) = false.
+Proof. vm_compute. repeat split. Qed.
 
 (* non-vacuity: a concrete equal-clock conflict *)
 Example C22_example_add_wins :
